@@ -6,6 +6,8 @@ Case lines:
      the Coq function gen_trait must predict exactly these rows.
  '101 <half> <container> | call ; call ..'  compiled program: the same call history on a value directly and through an opaque object
      (container 0 Box / 1 &mut / 2 & / 3 Box + CArc context / 4 CArcSome / 5 clone of a shared CArcSome + CArc context) built from an identical value; see harness/prog/src/shapes.rs for the call codes.
+ '102 <container> | call ; ..'  the same for traits with TYPE and LIFETIME parameters: one implementor of Store<u32>, Store<u64>, Store<Pod> and Named<'a, u32>, an opaque
+     object per instantiation (harness/prog/src/generic.rs).
  '108 <enabled> <container> | castop request ; ..'  group casts followed by calls (see C08).
 Monitor: results, argument digests seen by the implementation, final state, call log (same method, same instance, once) agree."""
 PROP = "C01"
@@ -36,11 +38,11 @@ def run_impl(lines):
 
 
 def model_line(l):
-    return "0 |" if l.startswith("101 ") else l
+    return "0 |" if l.startswith(("101 ", "102 ")) else l
 
 
 def compare(l, impl_rows, model_rows):
-    if l.startswith("101 "):
+    if l.startswith(("101 ", "102 ")):
         return True          # behavioural direct-vs-opaque runs: decided by the implementation-side monitor alone
     return impl_rows == model_rows
 
@@ -57,8 +59,9 @@ def gen_cases(rng, tier):
     a, d1 = G.ir_cases(rng, tier)
     b, d2 = G.shapes_cases(rng, tier)
     c, d3 = G.cast_cases(rng, tier)
-    d1.update(d2); d1.update(d3)
-    return a + b + c, d1
+    e, d4 = G.generic_cases(rng.fork("generic"), tier)
+    d1.update(d2); d1.update(d3); d1.update(d4)
+    return a + b + c + e, d1
 
 
 def monitor(l, impl_rows, kv):
